@@ -27,7 +27,7 @@ type C02Cell struct {
 	prepare bool // replayonce: build the always-failing variant that writes the fail file
 }
 
-var c02Contexts = []string{"body", "action", "inv", "custom", "custom2", "customretry", "cleanup", "ccleanup", "go", "recovered", "recoveredaction", "recoveredcustom", "bodycs"}
+var c02Contexts = []string{"body", "action", "inv", "custom", "custom2", "customretry", "cleanup", "ccleanup", "go", "recovered", "recoveredaction", "recoveredcustom", "bodycs", "customcs"}
 var c02Positions = []string{"first", "later", "last", "afterskips", "step", "replayonce", "replayshort", "late"}
 
 type c02 struct{}
@@ -121,6 +121,9 @@ func buildCell(cell *C02Cell, lastVal int64) (*Prog, CheckCfg) {
 	case "recoveredcustom":
 		p.Body = append(p.Body, guarded([]*Stmt{{Op: "draw", Label: "c", Gen: &GenSpec{K: "custom", Body: []*Stmt{
 			{Op: "draw", Label: "c0", Gen: wideInt()}, {Op: "recovered", Body: sig}, {Op: "draw", Label: "c1", Gen: &GenSpec{K: "bool"}}}}}}))
+	case "customcs":
+		p.Body = append(p.Body, guarded([]*Stmt{{Op: "draw", Label: "c", Gen: &GenSpec{K: "custom", Body: append([]*Stmt{
+			{Op: "draw", Label: "c0", Gen: wideInt()}, {Op: "cleanup", Body: []*Stmt{{Op: "skip", Kind: "Skip"}}}}, sig...)}}}))
 	case "bodycs":
 		p.Body = append(p.Body, guarded(append([]*Stmt{{Op: "cleanup", Body: []*Stmt{{Op: "skip", Kind: "Skip"}}}}, sig...)))
 	case "cleanup":
@@ -187,6 +190,9 @@ func cellValid(kind, context string, thenSkip bool) bool {
 	case "recovered", "recoveredaction", "recoveredcustom":
 		// Fatal / Fatalf / FailNow raised under a recover of the user's code, which swallows the panic that carries it
 		return sigClass(kind) == "fatal" && !thenSkip
+	case "customcs":
+		// the same inside a Custom generator function: it registers a cleanup that skips, then fails
+		return !thenSkip
 	case "bodycs":
 		// signalled in the body of a test case that has registered a cleanup which skips: the skip must not undo the
 		// failure (whether it was signalled through T or is a panic on its way up)
